@@ -456,7 +456,7 @@ impl<T> Stack<T> {
     /// pushing on `value` would cause the stack size to exceed
     /// `max_stack_size()`.
     pub fn push(&mut self, value: T) -> Result<(), StackError> {
-        if self.size() == self.max_stack_size {
+        if self.size() >= self.max_stack_size {
             Err(StackError::Overflow {
                 stack_type: std::any::type_name::<T>(),
             })
